@@ -103,7 +103,11 @@ def classify(name, desc):
 
 def run_unit(spec):
     name = spec["unit"]
-    wd = ensure_dir(os.path.join(WORK, "cbmc", name))
+    # one work directory per unit AND per repository under test: runs against scratch worktrees (VERIF_REPO) may go on
+    # concurrently with a run on /repo and must not see each other's goto binaries
+    from .core import REPO as _REPO
+    suffix = "" if os.path.realpath(_REPO) == "/repo" else "-" + sha(os.path.realpath(_REPO))[:8]
+    wd = ensure_dir(os.path.join(WORK, "cbmc", name + suffix))
     ext = ".c" if spec["lang"] == "c" else ".cpp"
     srcf = os.path.join(wd, "unit" + ext)
     write(srcf, spec["text"])
